@@ -2,7 +2,7 @@
 import ast
 import re
 
-from sa import fold, rx, roles, astutil as U
+from sa import fold, nf, rx, roles, astutil as U
 from sa.roles import Canon
 from sa.loader import norm_text, dotted, AnalysisError
 from sa.selftest import Mutant
@@ -29,7 +29,7 @@ EXPLANATION = ('TAB rules over SIG_TO_KEYS (105 entries), KEY_TO_SIG, KEY_TO_PRO
 TRUSTED = ['music-theory oracle', 're._parser']
 NOT_DECIDED = ['pitch/onset/duration values over token sequences', 'repeat expansion order', 'key spellings outside the module\'s own table (e.g. K:G#) - outside the property\'s quantifier']
 ASSUMPTIONS = []
-FLOORS = {'TAB': 140, 'MODE': 8, 'TOKEN': 15, 'CONTAIN': 20, 'KEYERR': 3, 'ACC': 3, 'STATE': 2}
+FLOORS = {'TAB': 140, 'MODE': 8, 'TOKEN': 15, 'CONTAIN': 20, 'KEYERR': 3, 'ACC': 3, 'STATE': 2, 'RHYTHM': 3}
 
 LETTER_PC = {'C': 0, 'D': 2, 'E': 4, 'F': 5, 'G': 7, 'A': 9, 'B': 11}
 LETTERS = 'CDEFGAB'
@@ -80,6 +80,7 @@ def run(ctx):
   contain(ctx, ci)
   keyerrors(ctx, ci, cc)
   accidentals(ctx, ci)
+  broken_rhythm(ctx, ci)
   from sa import state
   n = state.check_instance_state(ctx, ci, 'STATE/per-tune')
   ctx.require(n >= 2, 'ABCTune: fewer in-place-mutated attributes than confirmed by hand (%d)' % n)
@@ -451,7 +452,62 @@ def accidentals(ctx, ci):
   ctx.ob('ACC/octaves', fi, fn, ok, "' raises and , lowers by 12" if ok else 'octave marks map to %s' % octs, construct="octave marks ' -> +12, , -> -12")
 
 
+# ------------------------------------------------------------------ broken rhythm (ABC 2.1, 4.4)
+def broken_rhythm(ctx, ci):
+  """'>' * n: the second note keeps 1/2**n of its length and the first gains the rest; '<' * n mirrored.
+  So the boundary between the two (equal) notes moves by  len - len / 2**n, later for '>', earlier for '<'."""
+  m = ci.methods.get('_apply_broken_rhythm')
+  ctx.require(m is not None, 'ABCTune._apply_broken_rhythm not found')
+  sym = m.params()[1]
+  lens = roles.assigned_where(m.node, lambda v, st: isinstance(v, ast.BinOp) and isinstance(v.op, ast.Sub) and norm_text(v.left).endswith('.end_time') and
+                              norm_text(v.right).endswith('.start_time') and norm_text(v.left).split('.')[0] == norm_text(v.right).split('.')[0])
+  ctx.require(len(lens) == 2, '_apply_broken_rhythm: the two note lengths were not found')
+  n1 = norm_text([st for st in U.walk_stmts(m.node) if isinstance(st, ast.Assign) and norm_text(st.targets[0]) == lens[0]][0].value.left).split('.')[0]
+  n2 = norm_text([st for st in U.walk_stmts(m.node) if isinstance(st, ast.Assign) and norm_text(st.targets[0]) == lens[1]][0].value.left).split('.')[0]
+  # equal-length precondition
+  eq = [s for s in U.walk_stmts(m.node) if isinstance(s, ast.If) and any(isinstance(x, ast.Raise) for x in s.body) and
+        U.eq_sides(s.test, lambda a: norm_text(a) == lens[0], lambda b: norm_text(b) == lens[1], ops=(ast.NotEq,))]
+  ctx.ob('RHYTHM/equal-lengths', m, eq[0] if eq else m.node, bool(eq), 'notes of different lengths are rejected' if eq else
+         'broken rhythm is applied to notes of different lengths without an error (the shift below assumes equal lengths)')
+  # the moves: which variable is added/subtracted
+  moves = {}
+  for s in U.walk_stmts(m.node):
+    if isinstance(s, ast.AugAssign) and isinstance(s.op, (ast.Add, ast.Sub)) and isinstance(s.value, ast.Name):
+      tests = [t for (t, pol) in U.enclosing_tests(m.node, s) if pol]
+      which = None
+      for t in tests:
+        sd = U.eq_sides(t, lambda a: isinstance(a, ast.Subscript) and norm_text(a.value) == sym and U.const_value(a.slice) == 0,
+                        lambda b: isinstance(b, ast.Constant) and b.value in ('<', '>'))
+        if sd:
+          which = sd[1].value
+      if which:
+        moves.setdefault(which, []).append((norm_text(s.target), 'Add' if isinstance(s.op, ast.Add) else 'Sub', s.value.id, s))
+  adj = set(x[2] for v in moves.values() for x in v)
+  ok = len(adj) == 1 and sorted((t, o) for (t, o, _a, _s) in moves.get('>', [])) == sorted([(n1 + '.end_time', 'Add'), (n2 + '.start_time', 'Add')]) and \
+      sorted((t, o) for (t, o, _a, _s) in moves.get('<', [])) == sorted([(n1 + '.end_time', 'Sub'), (n2 + '.start_time', 'Sub')])
+  ctx.ob('RHYTHM/direction', m, m.node, ok, "'>' moves the boundary between the two notes later, '<' earlier, by the same amount on both notes" if ok else
+         "the boundary between the two notes is not moved later for '>' and earlier for '<' on both notes: %s" % {k: [(t, o) for (t, o, _a, _s) in v] for k, v in moves.items()},
+         construct='broken rhythm direction')
+  if len(adj) == 1:
+    a = adj.pop()
+    st = [s for s in U.walk_stmts(m.node) if isinstance(s, ast.Assign) and norm_text(s.targets[0]) == a]
+    ok = False
+    got = None
+    if len(st) == 1:
+      try:
+        got = nf.rat(st[0].value)
+        ok = got.equals(nf.rat(U.E('%s - %s / (2 ** len(%s))' % (lens[0], lens[0], sym))))
+      except nf.NFError:
+        ok = False
+    ctx.ob('RHYTHM/shift', m, st[0] if st else m.node, ok, 'the boundary moves by len - len / 2**n (dotted / double dotted / triple dotted first note)' if ok else
+           'the boundary moves by %s, not by len - len / 2**n: ABC 2.1 (4.4) makes the shortened note 1/2**n of its length (> 1.5+0.5, >> 1.75+0.25, >>> 1.875+0.125)' % (
+               norm_text(st[0].value) if st else '?'), construct='broken rhythm shift = len - len / 2**n')
+
+
 MUTANTS = [
+    Mutant('broken rhythm shift len/2**n again (the defect fixed in af186e9)', F, "    time_adj = note1_len - note1_len / (2 ** len(broken_rhythm))", "    time_adj = note1_len / (2 ** len(broken_rhythm))", rule='RHYTHM/shift'),
+    Mutant("'<' lengthens the first note", F, "    if broken_rhythm[0] == '<':\n      note1.end_time -= time_adj\n      note2.start_time -= time_adj", "    if broken_rhythm[0] == '<':\n      note1.end_time += time_adj\n      note2.start_time += time_adj", rule='RHYTHM/direction'),
+    Mutant('shift written as a product (harmless)', F, "    time_adj = note1_len - note1_len / (2 ** len(broken_rhythm))", "    time_adj = note1_len * (1 - 1 / (2 ** len(broken_rhythm)))", expect='silent'),
     Mutant('seed C04_b: bar accidentals become a class-level dict shared by all tunes', F, "  FLATS_ORDER = 'BEADGCF'\n", "  FLATS_ORDER = 'BEADGCF'\n  _bar_accidentals = {}\n", rule='STATE/per-tune',
            also=[(F, "    self._bar_accidentals = {}\n", "")]),
     Mutant('class-level default None with the per-tune dict still made in __init__ (harmless)', F, "  FLATS_ORDER = 'BEADGCF'\n", "  FLATS_ORDER = 'BEADGCF'\n  _bar_accidentals = None\n", expect='silent'),
@@ -483,5 +539,5 @@ MUTANTS = [
     Mutant('flats order built from the sharps order', F, "  FLATS_ORDER = 'BEADGCF'", "  FLATS_ORDER = SHARPS_ORDER[::-1]", expect='silent'),
 ]
 
-RENAME_FUNCS = [(F, 'parse_abc_tunebook'), (F, 'ABCTune.parse_key'), (F, 'ABCTune._parse_music_code'), (F, 'ABCTune._sig_to_accidentals'),
+RENAME_FUNCS = [(F, 'ABCTune._apply_broken_rhythm'), (F, 'parse_abc_tunebook'), (F, 'ABCTune.parse_key'), (F, 'ABCTune._parse_music_code'), (F, 'ABCTune._sig_to_accidentals'),
                 (F, 'ABCTune._parse_information_field'), (F, 'ABCTune.__init__')]
